@@ -26,6 +26,29 @@ def _era(p, table):
 # ---- packet ids (play state) per release --------------------------------------------------------
 KEEPALIVE_CB = [(47, 0x00), (107, 0x1F), (393, 0x21), (477, 0x20), (573, 0x21), (735, 0x20), (751, 0x1F), (755, 0x21)]
 KEEPALIVE_SB = [(47, 0x00), (107, 0x0B), (335, 0x0C), (338, 0x0B), (393, 0x0E), (477, 0x0F), (735, 0x10), (755, 0x0F)]
+# Field-layout facts used by C10/C11 (source: wiki.vg protocol version history):
+#  - keep-alive id is a Long from 1.12.2-pre1 (protocol 339) on, a VarInt before;
+#  - login plugin request (clientbound 0x04) / response (serverbound 0x02) exist from 1.13-pre3 (protocol 385) on.
+KEEPALIVE_LONG_FROM = 339
+LOGIN_PLUGIN_FROM = 385
+#  - between 1.13-pre3 (385) and 1.13-pre8 (390) the new plugin packets sat at id 0x00 and every other login packet was
+#    shifted up by one; from 1.13-pre9 (391) on they are 0x04 / 0x02 and the old numbering is back.
+LOGIN_SHIFT_UNTIL = 391
+
+
+def login_ids(p):
+    """({clientbound class name: id}, {serverbound class name: id}) of the login state at protocol number p."""
+    cb = {'DisconnectPacket': 0x00, 'EncryptionRequestPacket': 0x01, 'LoginSuccessPacket': 0x02, 'SetCompressionPacket': 0x03}
+    sb = {'LoginStartPacket': 0x00, 'EncryptionResponsePacket': 0x01}
+    if LOGIN_PLUGIN_FROM <= p < LOGIN_SHIFT_UNTIL:
+        cb = {k: v + 1 for k, v in cb.items()}
+        sb = {k: v + 1 for k, v in sb.items()}
+        cb['PluginRequestPacket'] = 0x00
+        sb['PluginResponsePacket'] = 0x00
+    elif p >= LOGIN_SHIFT_UNTIL:
+        cb['PluginRequestPacket'] = 0x04
+        sb['PluginResponsePacket'] = 0x02
+    return cb, sb
 JOIN_GAME = [(47, 0x01), (107, 0x23), (393, 0x25), (573, 0x26), (735, 0x25), (751, 0x24), (755, 0x26)]
 CHAT_CB = [(47, 0x02), (107, 0x0F), (393, 0x0E), (573, 0x0F), (735, 0x0E), (755, 0x0F)]
 CHAT_SB = [(47, 0x01), (107, 0x02), (335, 0x03), (338, 0x02), (477, 0x03)]
